@@ -207,6 +207,13 @@ pub fn c11(ctx: &mut Ctx) {
         ctx.bound("long chains", "chains of {7,8,9,15..18,31..34,63,65,130,255,256,257,300,513,1025} well-formed tiles of mixed sizes (two size patterns) x 12 tail variants");
         sp.run(ctx, &sp.name, super::bytes::cross_limit(ctx), |s, l| c11_case(s, l));
     }
+    // every tile count up to gens::dense_bound
+    if !child {
+        let nd = super::gens::dense_bound(ctx.tier);
+        let sp = super::bytes::dense_chain_space(nd);
+        ctx.bound("chains of every length", format!("datagrams of every tile count 1..={} x 4 tails (exact, last length field + 1, a stray byte, a header claiming more than is left)", nd));
+        sp.run(ctx, &sp.name, 0, |s, l| c11_case(s, l));
+    }
     // very long runs of one header-only packet (65 536, 65 537, 200 000 tiles: where a 16-bit tile counter wraps or a
     // per-tile recursion runs out of stack) and single-tile SDES giants
     {
